@@ -332,94 +332,129 @@ class Hang:
         self.item, self.why = item, why
 
 
-def _worker(func, items, taskq, resq):
+def _worker(func, items, conn):
+    """worker end of one private pipe: receives item indices, sends back ("done"|"error", index, payload)"""
     while True:
-        i = taskq.get()
+        try:
+            i = conn.recv()
+        except (EOFError, OSError):
+            return
         if i is None:
             return
-        resq.put(("start", i, os.getpid()))
         try:
             r = func(items[i])
-            resq.put(("done", i, r))
+            conn.send(("done", i, r))
         except BaseException as e:  # noqa
             import traceback
 
-            resq.put(("error", i, "%s: %s\n%s" % (type(e).__name__, e, traceback.format_exc()[-1500:])))
+            try:
+                conn.send(("error", i, "%s: %s\n%s" % (type(e).__name__, e, traceback.format_exc()[-1500:])))
+            except Exception:  # noqa
+                return
 
 
 def pmap(func, items, workers=None, chunksize=1, timeout=None):
-    """Parallel map over a list of work items using fork; yields results in completion order of index
-    (ordered). func is inherited by fork, never pickled; results must be picklable. An item whose worker
-    exceeds `timeout` seconds or dies yields a Hang."""
+    """Ordered parallel map over a list of work items using fork. func is inherited by fork, never pickled; results must
+    be picklable. Every worker has its own pipe, so a worker that is killed mid-message (segfault in native code) can only
+    break its own channel: the item it was running yields a Hang("worker process died"), an item that exceeds `timeout`
+    seconds yields a Hang("no result after ... s") and its worker is killed; a replacement worker is started in both cases."""
+    from multiprocessing.connection import wait as _wait
+
     items = list(items)
     timeout = timeout or float(os.environ.get("VERIF_ITEM_TIMEOUT", "900"))
-    workers = min(workers or NCPU, max(1, len(items)))
+    nworkers = min(workers or NCPU, max(1, len(items)))
     if os.environ.get("VERIF_SERIAL"):
         for it in items:
             yield func(it)
         return
     ctx = mp.get_context("fork")
-    taskq, resq = ctx.Queue(), ctx.Queue()
-    for i in range(len(items)):
-        taskq.put(i)
-    procs = {}
+    W = {}  # conn -> dict(proc, item, t0)
 
     def spawn():
-        p = ctx.Process(target=_worker, args=(func, items, taskq, resq), daemon=True)
+        pc, cc = ctx.Pipe(duplex=True)
+        p = ctx.Process(target=_worker, args=(func, items, cc), daemon=True)
         p.start()
-        procs[p.pid] = p
+        cc.close()
+        W[pc] = dict(proc=p, item=None, t0=None)
+        return pc
 
-    for _ in range(workers):
+    def retire(conn, kill=False):
+        w = W.pop(conn)
+        try:
+            if kill and w["proc"].is_alive():
+                w["proc"].kill()
+            conn.close()
+        except Exception:  # noqa
+            pass
+        w["proc"].join(5)
+        return w
+
+    for _ in range(nworkers):
         spawn()
-    running = {}  # idx -> (pid, t0)
+    pending = list(range(len(items)))[::-1]
     results = {}
     nxt = 0
     ndone = 0
-    import queue as _q
-
     try:
         while ndone < len(items):
-            try:
-                kind, i, payload = resq.get(timeout=1.0)
-            except _q.Empty:
-                kind = None
+            # hand out work
+            for conn, w in list(W.items()):
+                if w["item"] is None and pending:
+                    i = pending.pop()
+                    try:
+                        conn.send(i)
+                        w["item"], w["t0"] = i, time.time()
+                    except (OSError, ValueError):
+                        pending.append(i)
+                        retire(conn, kill=True)
+                        spawn()
+            busy = [c for c, w in W.items() if w["item"] is not None]
+            ready = _wait(busy, timeout=1.0) if busy else []
             now = time.time()
-            if kind == "start":
-                running[i] = (payload, now)
-            elif kind == "done":
-                running.pop(i, None)
-                results[i] = payload
+            for conn in ready:
+                w = W[conn]
+                i = w["item"]
+                try:
+                    kind, j, payload = conn.recv()
+                    results[i] = payload if kind == "done" else Hang(items[i], "worker raised: " + str(payload))
+                    w["item"], w["t0"] = None, None
+                except (EOFError, OSError, Exception) as e:  # noqa  (broken channel: the worker died)
+                    ww = retire(conn, kill=True)
+                    results[i] = Hang(items[i], "worker process died (exit code %s)" % ww["proc"].exitcode)
+                    if pending or any(x["item"] is not None for x in W.values()):
+                        spawn()
                 ndone += 1
-            elif kind == "error":
-                running.pop(i, None)
-                results[i] = Hang(items[i], "worker raised: " + payload)
-                ndone += 1
-            # watchdog: timeouts and dead workers
-            for i, (pid, t0) in list(running.items()):
-                p = procs.get(pid)
-                dead = p is not None and not p.is_alive()
-                if dead or now - t0 > timeout:
-                    if p is not None and p.is_alive():
-                        p.kill()
-                    if p is not None:
-                        p.join(5)
-                        procs.pop(pid, None)
-                    running.pop(i, None)
-                    why = ("worker process died (exit code %s)" % (p.exitcode if p else "?")) if dead else ("no result after %.0f s (hang)" % timeout)
-                    results[i] = Hang(items[i], why)
-                    ndone += 1
-                    if ndone + len(running) < len(items):
+            for conn, w in list(W.items()):
+                if w["item"] is not None and conn not in ready:
+                    i = w["item"]
+                    if not w["proc"].is_alive():
+                        ww = retire(conn, kill=True)
+                        results[i] = Hang(items[i], "worker process died (exit code %s)" % ww["proc"].exitcode)
+                        ndone += 1
+                        spawn()
+                    elif now - w["t0"] > timeout:
+                        retire(conn, kill=True)
+                        results[i] = Hang(items[i], "no result after %.0f s (hang)" % timeout)
+                        ndone += 1
                         spawn()
             while nxt in results:
                 yield results.pop(nxt)
                 nxt += 1
     finally:
-        for _ in procs:
-            taskq.put(None)
-        for p in procs.values():
-            p.join(2)
-            if p.is_alive():
-                p.kill()
+        for conn in list(W):
+            try:
+                conn.send(None)
+            except Exception:  # noqa
+                pass
+        for conn in list(W):
+            w = W.pop(conn)
+            w["proc"].join(2)
+            if w["proc"].is_alive():
+                w["proc"].kill()
+            try:
+                conn.close()
+            except Exception:  # noqa
+                pass
 
 
 def hkey(*parts) -> str:
